@@ -21,7 +21,7 @@ impl COpt {
     pub fn is_some(&self) -> (r: bool) ensures r == (*self is Some) { match self { COpt::Some(_) => true, COpt::None => false } }
     pub fn is_none(&self) -> (r: bool) ensures r == (*self is None) { match self { COpt::Some(_) => false, COpt::None => true } }
 }
-pub struct Mint { pub owner_program: Pubkey, pub k: Pubkey, pub freeze_authority: COpt, pub extensions: Vec<TokenExtensionType>, pub default_state: Option<u8> }
+pub struct Mint { pub owner_program: Pubkey, pub k: Pubkey, pub decimals: u8, pub freeze_authority: COpt, pub extensions: Vec<TokenExtensionType>, pub default_state: Option<u8> }
 pub struct MintAccountInfo<'a> { pub owner: &'a Pubkey, pub m: &'a Mint }
 pub struct MintData<'a> { pub m: &'a Mint }
 pub struct MintUnpacked<'a> { pub m: &'a Mint }
@@ -120,5 +120,11 @@ pub open spec fn badge_ok(a: BadgeAccount<'_>, config: Pubkey, mint: Pubkey) -> 
 /// C19: a pool or reward can be created over a mint only if mint_supported holds with the badge issued for THIS config and THIS mint
 //@ fn util/v2/token.rs verify_supported_token_mint -> r canary
     ensures r is Ok ==> mint_supported(token_mint.data, badge_ok(*token_badge, whirlpools_config_key, token_mint.data.k)),
+//@ end
+
+/// the badge's non-transferable-position attribute counts only for a badge that is valid for this config and mint
+//@ fn util/v2/token.rs is_non_transferable_position_required -> r canary
+    ensures r matches Ok(b) ==> b == (badge_ok(*token_badge, whirlpools_config_key, token_mint.data.k) && token_badge.stored->Some_0.attribute_require_non_transferable_position),
+//@ rewrite /TokenBadge::try_deserialize\(&mut token_badge\.data\.borrow\(\)\.as_ref\(\)\)\?/ => /try_deserialize_badge(token_badge)?/
 //@ end
 }
